@@ -1,5 +1,6 @@
 import FV.Proofs.InitAlloc
 import FV.Proofs.InitAllocDie
+import FV.Proofs.InitAllocGlb
 import FV.Props.C18
 /-
   C03 — Initial allocation equals the exact geometric overlap.
@@ -24,9 +25,17 @@ import FV.Props.C18
   (what `split_refinable_regions` and the refinement operations do, C18 `splitH_tiles` / `split_tiles`).
 
   SCOPE / NOT PROVED HERE
-  * IEEE rounding: the theorems are exact-arithmetic statements (`pySum = Σ`, the clamp `1 < a < 1 + 1e-6 ↦ 1` of the
-    repaired code never fires because `Σ_r areaOverlap c r ≤ area c`, `NetOK.cover_le`); at `Float` the model is only
-    executed against the implementation (F stream of `harness/props/c03.py`).
+  * IEEE rounding: the theorems are exact-arithmetic statements (`pySum = Σ`).  The repair
+    `fixes/C03_ratio_above_one.diff` (`if 1.0 < area < 1.0 + eps: area = 1.0`, model `clampOne`) does not change the
+    exact-arithmetic model: theorem `clamp_never_fires` below — the ratio of a module of a compatible netlist in a
+    proper cell is `≤ 1` (pairwise non-overlapping rectangles cover no cell more than once, `NetOK.cover_le`), so the
+    clamp is the identity on every ratio the model computes; `clamp_only_rounding` says what it does otherwise (values
+    in `(1, 1 + 1e-6)` become `1`, everything else is untouched).  At `Float` the model, clamp included, is only
+    executed against the implementation (F stream of `harness/props/c03.py`; the clamp path is hit by ~18 % of the
+    decimal documents).
+  * Both public entry points are covered: `create_initial_allocation(die)` (`ratio_eq`, `fixed_full`, `listed_iff`, …)
+    and `Allocation(descriptors).initial_allocation(netlist)` (`…_then_initial`: same clauses, hypotheses on the
+    descriptor list, depths kept); `create_initial_is_then_initial` relates the two.
   * The theorems of the first sections take `FixedOK`, `Pairwise NoOverlap`, `Inside`, `Σ area = area die` about the
     cells as hypotheses.  The last section (`… _on_die`) discharges them from C01 (`FV.C01.die_complete`, `die_sound`)
     for every `ValidDie` input and every accepted pick sequence, through the adapter stated in
@@ -402,6 +411,138 @@ theorem allocated_area_of_tiling (sqrt : α → α) (εA : α) (iz : Bool) (mods
   rw [List.map_append, List.sum_append] at ht
   linarith
 
+/-! ### the repaired clamp -/
+
+/-- **clamp_never_fires**: for a compatible netlist and a proper cell, the ratio `Σ_r areaOverlap c r / area c` is at
+    most 1, hence the repaired code's `if 1.0 < area < 1.0 + eps: area = 1.0` does not change it: the repair is
+    invisible in exact arithmetic (it only absorbs rounding at `Float`). -/
+theorem clamp_never_fires (sqrt : α → α) (mods : List (Module α)) (hn : NetOK sqrt mods) (m : Module α) (hm : m ∈ mods)
+    (c : Rect α) (hw : 0 < c.w) (hh : 0 < c.h) :
+    ratioIn c (shapeOf sqrt m) = overlapSum c (shapeOf sqrt m) / c.area ∧
+    ratioIn c (shapeOf sqrt m) ≤ 1 ∧
+    clampOne (ratioIn c (shapeOf sqrt m)) = ratioIn c (shapeOf sqrt m) :=
+  ⟨ratioIn_eq _ _, (hn.clamp_id hm c hw hh).1, (hn.clamp_id hm c hw hh).2⟩
+
+/-- what the clamp does in general: values strictly between `1` and `1 + 10⁻⁶` become `1`, all others are unchanged;
+    in particular it never turns an over-covered cell (ratio `≥ 1 + 10⁻⁶`, overlapping own rectangles) into a legal one. -/
+theorem clamp_only_rounding (a : α) :
+    (1 < a ∧ a < 1 + 1 / 1000000 → clampOne a = 1) ∧ (¬ (1 < a ∧ a < 1 + 1 / 1000000) → clampOne a = a) := by
+  unfold clampOne
+  simp only [one_eq, eps6_eq]
+  exact ⟨fun h => if_pos h, fun h => if_neg h⟩
+
+/-! ### the second public entry point: `Allocation(descriptors).initial_allocation(netlist)` -/
+
+/-- `create_initial_allocation(die)` is `Allocation([(rect, {}, 0) …]).initial_allocation(netlist)` on the die's cells. -/
+theorem create_initial_is_then_initial (sqrt : α → α) (εA : α) (iz : Bool) (mods : List (Module α))
+    (refinable fixed : List (Rect α)) :
+    createInitialAllocation sqrt εA iz mods refinable fixed =
+      allocationThenInitial sqrt εA iz mods ((refinable ++ fixed).map fun r => (r, 0)) :=
+  cia_eq_ati sqrt εA iz mods refinable fixed
+
+/-- **ratio_eq** for descriptors `(rectangle, {}, depth)`: the listed ratio is the exact covered fraction. -/
+theorem ratio_eq_then_initial (sqrt : α → α) (εA : α) (iz : Bool) (mods : List (Module α))
+    (cells : List (Rect α × Nat)) (A : Allocation α)
+    (h : allocationThenInitial sqrt εA iz mods cells = .ok A)
+    (hn : NetOK sqrt mods) (hc : CellsProper (cells.map (·.1)))
+    (cell : Cell α) (hcell : cell ∈ A.cells) (hnf : cell.rect.fixed = false)
+    (m : Module α) (hm : m ∈ mods) (v : α) (hv : cell.alloc.lookup m.name = some v) :
+    v = overlapSum cell.rect (shapeOf sqrt m) / cell.rect.area := by
+  rcases (mem_cells_then_iff sqrt εA iz mods cells A h cell).mp hcell with
+    ⟨p, _, n, _, rfl⟩ | ⟨p, hpm, _, _, rfl⟩
+  · simp at hnf
+  · have hp := hc p.1 (List.mem_map_of_mem hpm)
+    simp only at hv ⊢
+    rw [hn.lookup_rest iz hm p.1 hp.1 hp.2] at hv
+    split at hv
+    · simpa using hv.symm
+    · simp at hv
+
+/-- **listed_iff** for descriptors (without include-zero). -/
+theorem listed_iff_then_initial (sqrt : α → α) (εA : α) (mods : List (Module α))
+    (cells : List (Rect α × Nat)) (A : Allocation α)
+    (h : allocationThenInitial sqrt εA false mods cells = .ok A)
+    (hn : NetOK sqrt mods) (hc : CellsProper (cells.map (·.1)))
+    (cell : Cell α) (hcell : cell ∈ A.cells) (hnf : cell.rect.fixed = false) (m : Module α) (hm : m ∈ mods) :
+    (cell.alloc.lookup m.name).isSome = true ↔ 0 < overlapSum cell.rect (shapeOf sqrt m) := by
+  rcases (mem_cells_then_iff sqrt εA false mods cells A h cell).mp hcell with
+    ⟨p, _, n, _, rfl⟩ | ⟨p, hpm, _, _, rfl⟩
+  · simp at hnf
+  · have hp := hc p.1 (List.mem_map_of_mem hpm)
+    simp only
+    rw [hn.lookup_rest false hm p.1 hp.1 hp.2]
+    by_cases hpos : 0 < overlapSum p.1 (shapeOf sqrt m) <;> simp [hpos]
+
+/-- **fixed_full** for descriptors: (i) a descriptor at the place of a rectangle of the fixed module `m` is returned
+    flagged with exactly `{m ↦ 1}` and depth 0 (whatever depth and flag it came with); (ii) every returned cell at such
+    a place has that form; (iii) no other cell lists `m` with a positive ratio.  The cells that stay refinable keep
+    their depth (`depth_kept_then_initial`). -/
+theorem fixed_full_then_initial (sqrt : α → α) (εA : α) (iz : Bool) (mods : List (Module α))
+    (cells : List (Rect α × Nat)) (A : Allocation α)
+    (h : allocationThenInitial sqrt εA iz mods cells = .ok A)
+    (hn : NetOK sqrt mods) (hc : CellsProper (cells.map (·.1))) (hf : FixedOK mods (cells.map (·.1)))
+    (m : Module α) (hm : m ∈ mods) (hfx : m.fixed = true) :
+    (∀ r ∈ m.rects, ∀ p ∈ cells, GeoEq p.1 r →
+      (⟨{ p.1 with fixed := true }, [(m.name, 1)], 0⟩ : Cell α) ∈ A.cells) ∧
+    (∀ cell ∈ A.cells, ∀ r ∈ m.rects, GeoEq cell.rect r →
+      cell.alloc = [(m.name, 1)] ∧ cell.rect.fixed = true ∧ cell.depth = 0) ∧
+    (∀ cell ∈ A.cells, ∀ v, cell.alloc.lookup m.name = some v → 0 < v → ∃ r ∈ m.rects, GeoEq cell.rect r) := by
+  have hmem := mem_cells_then_iff sqrt εA iz mods cells A h
+  refine ⟨?_, ?_, ?_⟩
+  · intro r hr p hpm hg
+    exact (hmem _).mpr (Or.inl ⟨p, hpm, m.name, (owners_of_fixed_cell hn hf hm hfx hr hg _).mpr rfl, rfl⟩)
+  · intro cell hcell r hr hg
+    rcases (hmem cell).mp hcell with ⟨p, hpm, n, hno, rfl⟩ | ⟨p, hpm, ho, _, rfl⟩
+    · have hg' : GeoEq p.1 r := hg
+      have := (owners_of_fixed_cell hn hf hm hfx hr hg' n).mp hno
+      subst this
+      exact ⟨rfl, rfl, rfl⟩
+    · have hg' : GeoEq p.1 r := hg
+      have := (owners_of_fixed_cell hn hf hm hfx hr hg' m.name).mpr rfl
+      rw [ho] at this; simp at this
+  · intro cell hcell v hv hpos
+    rcases (hmem cell).mp hcell with ⟨p, hpm, n, hno, rfl⟩ | ⟨p, hpm, ho, _, rfl⟩
+    · have hp := hc p.1 (List.mem_map_of_mem hpm)
+      simp only [List.lookup] at hv
+      have hnm : n = m.name := by
+        by_contra hne
+        have : (m.name == n) = false := by simpa using fun e => hne e.symm
+        rw [this] at hv; simp at hv
+      subst hnm
+      obtain ⟨m'', hm'', hname, hratio⟩ := (mem_owners _ _ _).mp hno
+      obtain ⟨m', hm', _, rfl⟩ := (mem_fixedMods sqrt mods m'').mp hm''
+      have : m' = m := hn.eq_of_name hm' hm hname
+      subst this
+      simp only at hratio
+      rw [ratioIn_eq] at hratio
+      have hpos' : 0 < overlapSum p.1 (shapeOf sqrt m') / p.1.area := by
+        linarith [eps6_lt_one (α := α)]
+      rw [div_pos_iff_of_pos_right (area_pos p.1 hp.1 hp.2)] at hpos'
+      obtain ⟨r, hr, hg⟩ := geo_of_positive_overlap hn hf hm hfx (List.mem_map_of_mem hpm) hpos'
+      exact ⟨r, hr, hg⟩
+    · have hp := hc p.1 (List.mem_map_of_mem hpm)
+      simp only at hv ⊢
+      rw [hn.lookup_rest iz hm p.1 hp.1 hp.2] at hv
+      split at hv
+      · simp only [Option.some.injEq] at hv
+        subst hv
+        rw [div_pos_iff_of_pos_right (area_pos p.1 hp.1 hp.2)] at hpos
+        obtain ⟨r, hr, hg⟩ := geo_of_positive_overlap hn hf hm hfx (List.mem_map_of_mem hpm) hpos
+        have := (owners_of_fixed_cell hn hf hm hfx hr hg m.name).mpr rfl
+        rw [ho] at this; simp at this
+      · simp at hv
+
+/-- the cells that stay refinable are descriptors of the input, unchanged, with the depth they came with. -/
+theorem depth_kept_then_initial (sqrt : α → α) (εA : α) (iz : Bool) (mods : List (Module α))
+    (cells : List (Rect α × Nat)) (A : Allocation α)
+    (h : allocationThenInitial sqrt εA iz mods cells = .ok A)
+    (cell : Cell α) (hcell : cell ∈ A.cells) (hnf : cell.rect.fixed = false) :
+    (cell.rect, cell.depth) ∈ cells := by
+  rcases (mem_cells_then_iff sqrt εA iz mods cells A h cell).mp hcell with
+    ⟨p, _, n, _, rfl⟩ | ⟨p, hpm, _, _, rfl⟩
+  · simp at hnf
+  · exact hpm
+
 /-! ### composed with C01: no hypothesis on the cells, only a valid die and the netlist side conditions -/
 
 /-- **die_cells_ok**: for a `ValidDie` document (C01) whose fixed rectangles are the netlist's, and ANY accepted pick
@@ -518,6 +659,62 @@ theorem allocated_area_on_die (sqrt : α → α) (st : Option (α × α)) (doc :
       exact inside_dieRect inp.W inp.H c this)
     (by rw [hnf, ← hall, hex.area, hW, hH]; rfl)
   rw [hres, hbe, hfe]
+
+/-! ### the initial allocation is a start state of `glbfloor` (bridge to C10) -/
+
+/-- **initial_allocation_is_glb_start**: for a `ValidDie` document (C01), any accepted pick sequence and a compatible
+    netlist whose module names are identifiers, the allocation `create_initial_allocation(die)` returns (include-zero
+    off, as `glbfloor` calls it; `εA = st.area`, the class-wide area tolerance) satisfies the start-state hypotheses of
+    `FV.C10.glbfloor_correct`: re-read by the allocation model of C02 (`FV.Alloc.mkAllocation`) it is accepted with
+    the same cells and tolerances and is a `ValidAlloc`; all its cells lie inside the die; and for every Glb view
+    `gmods` of the netlist (`GlbModsOf`: fixed modules have the same name and rectangles) every fixed module satisfies
+    `FixedOwn`.  The three conjuncts are literally `hv`, `hin`, `hown` of `glbfloor_correct` for
+    `init = ⟨a, st, gmods⟩` and `die = dieRect W H`. -/
+theorem initial_allocation_is_glb_start (env : Alloc.Env α) (st : Alloc.Eps α) (hd : 0 ≤ st.dist) (ha : 0 ≤ st.area)
+    (sqrt : α → α) (stD : Option (α × α)) (doc : Die.YV α) (inp : Die.DieIn α)
+    (mods : List (Module α)) (hp : Die.parseDie doc = .ok inp)
+    (hεd : 0 ≤ (Die.mkEps sqrt stD inp.W inp.H).1.d) (hεa : 0 ≤ (Die.mkEps sqrt stD inp.W inp.H).1.a)
+    (hv : C01.ValidDie (Die.mkEps sqrt stD inp.W inp.H).1.d inp (netFixedRects mods)) (picks : List Die.IRect)
+    (hacc : Die.coverAccept ((Die.gridOf (Die.mkEps sqrt stD inp.W inp.H).1 inp (netFixedRects mods)).2.length - 1)
+      ((Die.gridOf (Die.mkEps sqrt stD inp.W inp.H).1 inp (netFixedRects mods)).1.length - 1)
+      (Die.occ (Die.gridOf (Die.mkEps sqrt stD inp.W inp.H).1 inp (netFixedRects mods)).1
+        (Die.gridOf (Die.mkEps sqrt stD inp.W inp.H).1 inp (netFixedRects mods)).2
+        (Die.occRects inp (netFixedRects mods))) picks = true)
+    (hn : NetOK sqrt mods) (hrects : ∀ m ∈ mods, m.fixed = true → m.rects ≠ [])
+    (hid : ∀ m ∈ mods, Alloc.validIdent m.name = true) :
+    ∃ out, Die.dieModel sqrt stD doc (netFixedRects mods) (some picks) =
+        .ok (out, (Die.mkEps sqrt stD inp.W inp.H).1, (Die.mkEps sqrt stD inp.W inp.H).2) ∧
+      ∀ (A : Allocation α), createInitialAllocation sqrt st.area false mods (refinableOf out) out.fixed = .ok A →
+        ∃ a, Alloc.mkAllocation env st ((A.cells.map toAllocCell).map Alloc.Cell.toRaw) = .ok (a, st) ∧
+          a.cells = A.cells.map toAllocCell ∧
+          ∀ gmods : List (Glb.Module α), GlbModsOf mods gmods →
+            Alloc.ValidAlloc (Glb.AState.mk a st gmods).eps (Glb.AState.mk a st gmods).alloc ∧
+            (∀ c ∈ (Glb.AState.mk a st gmods).alloc.cells, c.rect.isInside (Die.dieRect inp.W inp.H) = true) ∧
+            (∀ f ∈ (Glb.AState.mk a st gmods).mods, f.fixed = true →
+              Glb.FixedOwn ((Glb.AState.mk a st gmods).alloc.cells.map Glb.ofCell) f) := by
+  obtain ⟨out, hrun, hfe, _, hW, hH, hcp, _, hfo, hex, hall⟩ :=
+    die_cells_ok sqrt stD doc inp mods hp hεd hεa hv picks hacc hn hrects
+  refine ⟨out, hrun, ?_⟩
+  intro A hA
+  have hq : ∀ c ∈ refinableOf out ++ out.fixed,
+      c.isInside (Die.dieRect inp.W inp.H) = true ∧ 0 ≤ c.xmin ∧ 0 ≤ c.ymin := by
+    intro c hc
+    have hmem : c ∈ out.all := by
+      rw [hall]
+      rcases List.mem_append.mp hc with hc | hc
+      · exact List.mem_append_left _ hc
+      · exact List.mem_append_right _ (List.mem_append_right _ hc)
+    have hi := hex.inside c hmem
+    rw [hW, hH] at hi
+    exact ⟨isInside_of_inside c _ (inside_dieRect inp.W inp.H c hi), hi.1, hi.2.2.1⟩
+  obtain ⟨a, h1, h2, h3, h4, h5⟩ := glb_start_of_cells env st sqrt mods (refinableOf out) out.fixed A
+    (Die.dieRect inp.W inp.H) hA hd ha hn hid hcp hfo hq
+  refine ⟨a, h1, h2, ?_⟩
+  intro gmods hg
+  refine ⟨h3, h4, ?_⟩
+  intro f hf hfx
+  obtain ⟨m, hm, hmf, hname, hrs⟩ := hg f hf hfx
+  exact h5 m hm hmf f hname.symm hrs.symm
 
 /-! ### non-vacuity: a concrete die + netlist (executed at `Rat`) -/
 
@@ -654,6 +851,19 @@ example : ∃ picks out, Die.dieModel exSqrt none exDoc (netFixedRects exMods) (
       simp only [exMods, List.mem_cons, List.not_mem_nil, or_false] at hm
       rcases hm with rfl | rfl | rfl <;> simp at hf ⊢)
   exact ⟨picks, out, h1, h2⟩
+
+/-- the second entry point on the same cells given as unflagged descriptors with depths 2, 1, 3: the fixed module's
+    cell is flagged and gets depth 0, the others keep their depth. -/
+example :
+    (match allocationThenInitial exSqrt 0 false exMods
+        [({ cx := 1, cy := 1, w := 2, h := 2 }, 2), ({ cx := 2, cy := 3, w := 4, h := 2 }, 1),
+         ({ cx := 3, cy := 1, w := 2, h := 2 }, 3)] with
+     | .ok A => A.cells.map (fun c => (c.rect.fixed, c.alloc, c.depth)) ==
+         [(true, [("F", 1)], 0), (false, [("S", 1/4)], 2), (false, [("S", 1/4), ("q", 1/2)], 1)]
+     | .error _ => false) = true := by decide +kernel
+
+/-- the module names of the example are identifiers (side condition of `initial_allocation_is_glb_start`). -/
+example : ∀ m ∈ exMods, Alloc.validIdent m.name = true := by decide +kernel
 
 end example_
 
